@@ -29,6 +29,7 @@ THEOREMS = [
     "Aio.C18.resume_delivers_cancel",
     "Aio.C18.others_unaffected_step",
     "Aio.C18.pool_cowaiter_wakeup_passed_on",
+    "Aio.C18.redirect_keeps_total",
     "Aio.C18.interim_timer",
     "Aio.C18.continue_released_no_timer",
     "Aio.C18.effWs_close_indep",
@@ -81,8 +82,8 @@ TRUSTED_BASE = [
     "co-requests H and C are environment actors whose own exchanges complete at once when unblocked",
 ]
 ASSUMPTIONS = [
-    "the model has a single hop: followed redirects are judged by the direct oracle only (total spans all hops; connect / "
-    "sock_connect / sock_read are judged per hop from the second hop's own trace)",
+    "redirects: one followed redirect to another host (literal address) with an empty 3xx body is modelled (`redirectStep`); "
+    "the oracle judges connect / sock_connect / sock_read per hop from the second hop's own trace, total across hops",
     "behaviour flag interimKeepsTimerWhenSent (after a 1xx interim response, does ResponseHandler.data_received keep the read "
     "timer when start_timeout() had been called?) is probed from the imported source on every run and written to "
     "Generated/C18.lean; the model is parametric in it and all theorems build for both values",
@@ -333,6 +334,8 @@ def gen_pool_race(rng):
     sc.update(holder=rel, dns=None, co=rng.choice(["pool", "pool", None]), naddr=1)
     sc["conn"] = [rel + 7]
     sc["resp"] = [[q[0] + shift + 10000] + q[1:] for q in sc["resp"]]
+    if sc.get("peof") is not None:
+        sc["peof"] += shift + 10000      # the peer's close moves with its response (never before it)
     if sc.get("wresume") not in (None, -1):
         sc["wresume"] = rel + 8
     how = rng.choice(["late", "early", "timer", "timer-1", "after"])
@@ -638,11 +641,11 @@ def gen_overlap(rng):
 
 
 def gen_redirect(rng):
-    """(oracle only: the model has a single hop) a followed redirect to another host, then a stall on the second
+    """a followed redirect to another host, then a stall on the second
     hop — connecting, awaiting the head, inside the head, inside the body — or none; one timeout kind or a caller cancel.
     `total` spans all hops; `connect`/`sock_connect` start again with the second hop's connection"""
     kinds = ["total", "connect", "sock_connect", "sock_read"]
-    sc = {"t0": rng.choice(T0S), "holder": None, "dns": None, "co": None, "cancel": None, "redirect": 1, "oracle_only": 1}
+    sc = {"t0": rng.choice(T0S), "holder": None, "dns": None, "co": None, "cancel": None, "redirect": 1}
     for k in kinds:
         sc[k] = None
     how = rng.choice(["total", "total", "total", "sock_read", "connect", "sock_connect", "cancel"])
@@ -740,7 +743,9 @@ def model_line(sc):
     if sc.get("wresume") is not None and sc["wresume"] >= 0:
         add(sc["wresume"], 6, "W")
     for j, q in enumerate(sc.get("resp", [])):
-        add(q[0], 7 + j, f"B{q[2]}.{q[3]}.{q[4]}.{q[5]}" + (".1" if (len(q) > 6 and q[6]) else ""))
+        im = 1 if (len(q) > 6 and q[6]) else 0
+        rd = 1 if (sc.get("redirect") and j == 0 and q[5]) else 0      # the first, complete response of a redirect scenario
+        add(q[0], 7 + j, f"B{q[2]}.{q[3]}.{q[4]}.{q[5]}" + (f".{im}.{rd}" if rd else (".1" if im else "")))
     if sc.get("peof") is not None:
         add(sc["peof"], 900, "E")
     if sc.get("cancel") is not None:
@@ -752,7 +757,7 @@ def model_line(sc):
     wstall = 1 if (sc.get("body", 0) > 65536 and sc.get("wresume") is not None) else 0
     return (f"run total={o(sc['total'])} connect={o(sc['connect'])} sc={o(sc['sock_connect'])} sr={o(sc['sock_read'])} "
             f"limit1={limit1} dns={0 if sc.get('dns') is None else 1} naddr={sc.get('naddr', 1)} wstall={wstall} "
-            f"think={sc.get('think', 0)} buf={sc.get('bufsize', 65536)} https={1 if sc.get('tls') is not None else 0} cd={sc.get('cd', 0)} early={1 if sc.get('consume') == 'early' else 0} x100={sc.get('expect100', 0)} c0={sc.get('c0', 0)} co={1 if co else 0} " + " ".join(toks))
+            f"think={sc.get('think', 0)} buf={sc.get('bufsize', 65536)} https={1 if sc.get('tls') is not None else 0} cd={sc.get('cd', 0)} thr={sc.get('ceil_thr') if sc.get('ceil_thr') is not None else 5000} early={1 if sc.get('consume') == 'early' else 0} x100={sc.get('expect100', 0)} c0={sc.get('c0', 0)} co={1 if co else 0} " + " ".join(toks))
 
 
 def impl_line(out):
@@ -827,6 +832,11 @@ def oracle(ctx, sc, out):
         ctx.violation("C18/harness/" + out["harness"], sc, out.get("harness_detail", ""))
         return
     st = sc["stall"]
+    _thr = sc.get("ceil_thr") if sc.get("ceil_thr") is not None else 5000
+
+    def bound(start, d, thr=_thr):          # the documented rule with THIS scenario's ceil_threshold
+        when = start + d
+        return -(-when // 1000) * 1000 if d >= thr else when
     def _t(x):
         return x[0] if isinstance(x, list) else x
     tr = {k: ([x for x in v if _t(x) < c18env.T_OBS] if isinstance(v, list) else (v if (v is None or v < c18env.T_OBS) else None))
@@ -860,10 +870,16 @@ def oracle(ctx, sc, out):
         b = bound(tr["attempts"][0], sc["sock_connect"])
         est = tr["established"][0] if tr["established"] else INF
         if est > b and E > b:
-            kind = "per-address-retry" if len(tr["attempts"]) > 1 else "single"
+            # known finding K1 is ONLY: every single attempt kept its own sock_connect window and the next address was
+            # tried with a fresh one; anything else (an attempt overrunning its window) is reported as an ordinary bound violation
+            ends = list(tr["abandoned"][:len(tr["attempts"])])
+            if len(ends) < len(tr["attempts"]):
+                ends.append(est if est != INF else E)           # the last attempt: established, or still running at the end
+            each_ok = len(ends) == len(tr["attempts"]) and all(x <= bound(a, sc["sock_connect"]) for a, x in zip(tr["attempts"], ends))
+            kind = "per-address-retry" if (len(tr["attempts"]) > 1 and each_ok) else "single"
             bad("bound/sock_connect/" + kind,
                 f"sock_connect={sc['sock_connect']} from {tr['attempts'][0]}: no connection by {b}, request ended {end}, attempts at {tr['attempts']}",
-                phase=len(tr["attempts"]) <= 1)
+                phase=(kind == "single"))
     if sc.get("sock_read") and tr["established"] and tr["eof_at"] is None:
         marks = peer_owes_marks(sc, tr, INF)
         everything = [t for t in tr["delivered"]] + ([sent_time(sc, tr)] if sent_time(sc, tr) is not None else [])
@@ -1213,6 +1229,14 @@ def check(ctx):
         # `except CancelledError:` handler, or after a swallowed cancel): cancelling() in {0, 1, 2}
         if "c0" not in sc:
             sc["c0"] = ctx.rng.choice([0, 0, 0, 1, 1, 2])
+        if not sc.get("ws") and "ceil_thr" not in sc and ctx.rng.random() < 0.25:
+            sc["ceil_thr"] = ctx.rng.choice([1000, 2500, 4999, 7300, 10000])      # ClientTimeout.ceil_threshold
+        if "per_request" not in sc and ctx.rng.random() < 0.2:
+            sc["per_request"] = 1                                                  # timeouts passed with the request
+        if ctx.rng.random() < 0.05:
+            for k in ("connect", "sock_connect", "sock_read"):                     # 0 = "no timeout" for these three
+                if sc.get(k) is None and ctx.rng.random() < 0.5:
+                    sc[k] = 0
         if sc["c0"] and sc.get("body", 0) > 65536 and sc.get("wresume") is not None:
             sc["oracle_only"] = 1      # known finding C18-K6 (writer cancel leaks to a pre-cancelled caller): not in the model
     outs = [c18env.run_scenario(to_env(sc)) for sc in cases]
